@@ -429,7 +429,11 @@ def _width_scale(ctx, m, T) -> None:
             ctx.unverified("RENDER.rule", f"token/{tok}", f"`{un(lam.node)}`", m.rel)
             continue
         want_e = can.s(ast.parse(expr, mode="eval").body)
-        got_e = can.s(ast.parse(got[0], mode="eval").body)
+        gnode = ast.parse(got[0], mode="eval").body
+        if isinstance(gnode, ast.BinOp) and isinstance(gnode.op, ast.FloorDiv) and core.is_const(gnode.right, 1) and isinstance(gnode.left, ast.Attribute) \
+                and gnode.left.attr in ("year", "month", "day", "hour", "minute", "second", "microsecond"):
+            gnode = gnode.left          # an integer field floor-divided by 1
+        got_e = can.s(gnode)
         ctx.ob("RENDER.rule", f"token/{tok}", got_e == want_e and got[1] == spec,
                f"{tok} renders `{got[0]}` with format `{got[1]}`; the token means `{expr}` padded as `{spec}`", m.rel)
     yy = rules.get("YY")
